@@ -174,3 +174,32 @@ pub fn relativize(mut msg: crate::gen::msg::Msg, mask: u16) -> crate::gen::msg::
 pub fn fixed_message(query: BoxedStrategy<bool>, max_units: usize, max_data: usize, lead_ws: bool, indefinite: bool) -> BoxedStrategy<crate::gen::msg::Msg> {
     (crate::gen::msg::message_with(fixed_header(query), max_units, max_data, lead_ws, indefinite), any::<u16>()).prop_map(|(m, mask)| relativize(m, mask)).boxed()
 }
+
+/// `units` copies of the query `:A?` (leaf 2) with the given plans' responses:
+/// the carrier of the size-boundary response cases (C09 / C10 / C11).
+pub fn query_message(units: usize) -> crate::gen::msg::Msg {
+    use crate::gen::msg::{Ending, Msg, Unit};
+    let unit = Unit { header: Header { common: false, colon: true, path: vec![B::from("A")], query: true }, ws_header: B::default(), data: vec![], ws_data: vec![] };
+    Msg { lead_ws: B::default(), units: vec![unit; units], ws_units: vec![(B::default(), B::default()); units.saturating_sub(1)], ending: Ending::Nl }
+}
+
+/// Plans whose responses sit at the size boundaries of counters and length
+/// fields: 2^16 +- 1 data elements in one unit, blocks of 10^k +- 1 bytes up to
+/// 10^7 (the digit count of the block header), blocks ending in NL / CR.
+pub fn size_boundary_plans() -> Vec<Vec<crate::rec::UnitPlan>> {
+    use crate::rec::{RespDatum, UnitPlan};
+    let one = |d: Vec<RespDatum>| vec![UnitPlan { greedy: true, respond: d, ..Default::default() }];
+    let mut v = Vec::new();
+    for n in [65_535u32, 65_536, 65_537, 70_000] {
+        v.push(one(vec![RespDatum::ManyU8(n)]));
+    }
+    for n in [99_999u32, 100_000, 999_999, 1_000_000, 1_000_001, 9_999_999, 10_000_000] {
+        v.push(one(vec![RespDatum::BigBlock(n)]));
+        v.push(one(vec![RespDatum::U8(7), RespDatum::BigBlock(n), RespDatum::U8(9)]));
+    }
+    for tail in [&b"\n"[..], b"\r", b"\r\n", b";", b"line 1\nline 2\n"] {
+        v.push(one(vec![RespDatum::Block(B(tail.to_vec()))]));
+        v.push(one(vec![RespDatum::Str(B(tail.to_vec()))]));
+    }
+    v
+}
